@@ -17,10 +17,15 @@ MANIFEST = {
                   "the position designated by top-level sidx references / tfra entry / every moof (C12_boundaries, "
                   "C12_boundary_rules), segment-mode encoding emits init, top-level sidx, per segment styp/sidx/fragment children "
                   "in order, then mfra, its media sub-sequence being the input's (C12_segment_mode_encode), and after UpdateSidx "
-                  "reference i starts at the first byte of segment i, the references end at the end of the media, durations are "
-                  "the reference track's sums mod 2^32, reference_ID/timescale are the reference track's, for segments < 2^31 "
-                  "bytes (C12_sidx_tiles). The model is tied to /repo on every run by running it (extracted) "
-                  "against mp4.DecodeFile/Encode/UpdateSidx on synthesized files.",
+                  "reference i starts at the first byte of segment i, the references end at the end of the media, every "
+                  "referenced_size IS its segment's size, fits 31 bits and reads back from the written word as (type 0, size), "
+                  "every duration IS the reference track's summed sample durations over all trafs of all fragments of the segment "
+                  "(any traf order, fragments without the track, empty truns) and fits 32 bits, reference_ID/timescale are the "
+                  "reference track's - for segments of ANY size and duration (C12_sidx_tiles; the pre-85561e1 text wrapped "
+                  "silently: C12_sidx_pinned_refuted); the reference track is the first video track in moov order, else the first "
+                  "audio track, else the first track (C12_reference_track). The model is tied to /repo on every run by running it "
+                  "(extracted) against mp4.DecodeFile/Encode/UpdateSidx on synthesized files, including multi-track files with "
+                  "arbitrary track ids and traf orders and lazily decoded files with virtual mdat boxes of 2-8 GiB.",
     "level_note": "Trusted: Coq kernel, extraction (ExtrOcamlBasic), the OCaml/Go glue, the abstraction of a top-level box "
                   "to (kind, Size(), the fields the assembly reads). Byte-identity of a re-encoded box is C01/C02's claim; "
                   "here it is observed by the harness (bytes compared), not proved. Box-internal decoding is not modelled.",
@@ -77,7 +82,7 @@ def run(ctx):
     kinds = {}
     for l in lines:
         p = l.split("\t")
-        k = p[0] + ":" + p[1].split("-")[0] + ":" + (p[4] if p[0] == "A" else p[5])
+        k = p[0] + ":" + p[1].split("-")[0] + ":" + (p[4] if p[0] == "A" else p[5].split(";")[0][:12])
         kinds[k] = kinds.get(k, 0) + 1
     ctx.notes["correspondence"] = {
         "cases": len(lines), "mismatches": len(mism), "distinct_cases": distinct,
